@@ -1,4 +1,5 @@
 import HmsProofs.Lemmas.SimHList
+import HmsProofs.Lemmas.SimHObj
 /-!
 # Expressions of the general fragment: the induction steps
 -/
@@ -380,6 +381,32 @@ theorem pe_step (G : GCtx) (hG : G.OK') (n : Nat) (hPE : ∀ m, m ≤ n → PE G
           (withIt G.s it_) A.fn ip A.rest A.mp k stk mem.cells st.world A.c hA.code sp ipush)
         have hels := hrun st.heap st.out []
         rw [List.nil_append] at hels
+        exact ⟨rfl, mem, (hpush.trans hels).cast (by omega), MemLe.refl _ _ _⟩
+    case obj sp ty fs =>
+      simp only [Bool.and_eq_true, decide_eq_true_eq] at hok
+      obtain ⟨hat, hnd⟩ := hok
+      simp only [Frag.varsGE] at hres
+      simp only [Frag.namesGE, Frag.varsGE, Frag.callsGE, List.append_nil] at hT
+      simp only [cgE] at hpl ⊢
+      obtain ⟨hplP, hplE⟩ := hpl.append
+      obtain ⟨ipush, _⟩ := hplP.instr (i := .cloningPush (.obj (fs.map fun f => (f.1, PVal.null)))) rfl
+      have hn1 : nI [((Instr.cloningPush (.obj (fs.map fun f => (f.1, PVal.null))) : SInstr), sp)] = 1 := rfl
+      simp only [nI_append, hn1] at hplE ⊢
+      obtain ⟨hlm, vals, hkeys, hev, hrun⟩ := objFields_run G A hA st mem scopes vm sp hrel fs (ip + 1) stk lm hat hres hT hplE
+      rw [evalExpr_obj]
+      rcases hev st rfl n with h | h
+      · rw [h]; trivial
+      · rw [h]
+        simp only []
+        have hmm : (fs.map fun f => (f.1, PVal.null)) = (fs.map (·.1)).map fun k => (k, PVal.null) := by
+          rw [List.map_map]; rfl
+        have hmv : ((fs.map (·.1)).map fun k => (k, Val.null)) = fs.map fun f => (f.1, Val.null) := by
+          rw [List.map_map]; rfl
+        have hpush := Runs.of_exec1 (fr := G.fr) (mem := mem) (fun it_ k => mkS_cloningPush_obj G.code G.lim
+          (withIt G.s it_) A.fn ip A.rest A.mp k stk mem.cells st.world A.c hA.code sp (fs.map (·.1)) (hmm ▸ ipush))
+        rw [hmv] at hpush
+        have hels := hrun st.heap st.out [] hnd (fun _ _ h => by simp at h)
+        rw [List.nil_append, List.nil_append] at hels
         exact ⟨rfl, mem, (hpush.trans hels).cast (by omega), MemLe.refl _ _ _⟩
     case matchE sp ty c arms dflt =>
       cases dflt with
